@@ -119,11 +119,17 @@ def run_group(acc, wd, gi, rng, seed):
                 open(p, 'w').write(file_text(schA, part, incs, prefix=lambda f: 'a' + f))
                 inputsA.append(p)
         else:
-            p = os.path.join(src, 'a.prophy')
+            # sel 1: two inputs whose names agree up to the first dot
+            p = os.path.join(src, 'msg.v1.prophy' if sel == 1 else 'a.prophy')
             open(p, 'w').write(schA.to_prophy())
             inputsA = [p]
-        pb = os.path.join(src, 'b-v2.1.prophy' if sel == 2 else 'b.prophy')   # a base name that is no identifier
+        pb = os.path.join(src, 'b-v2.1.prophy' if sel == 2 else 'msg.v2.prophy' if sel == 1 else 'b.prophy')
         open(pb, 'w').write(schB.to_prophy())
+        # a file without declarations that both A and B include
+        open(os.path.join(src, 'notes.prophy'), 'w').write('// conventions: nothing is declared here\n/* only comments */\n')
+        for q in (inputsA[0], pb):
+            t_ = open(q).read()
+            open(q, 'w').write('#include "notes.prophy"\n' + t_)
         if sel == 1:
             for q in (inputsA[-1], pb):
                 open(q, 'a').write('struct Shared { u32 n; u8 x[3]; u16 t; };\n')
@@ -146,6 +152,15 @@ def run_group(acc, wd, gi, rng, seed):
 
     base = go('base', inputsA + [pb])
     if base is None:
+        # the joint run fails: a violation if each side compiles on its own, otherwise a prerequisite problem
+        alone = [cli_compile(root, 'pre_' + t, ins, fmt, '0', src, False, patch)[0] for t, ins in (('A', inputsA), ('B', [pb]))]
+        if alone == [0, 0]:
+            acc.p['prereq'].pop()
+            acc.p['counters']['prerequisite_failures'] -= 1
+            if not acc.p['counters']['prerequisite_failures']:
+                del acc.p['counters']['prerequisite_failures']
+            acc.violation(PROP, 'valid-inputs-fail-together',
+                          {'seed': seed, 'format': fmt, 'inputs': {os.path.basename(q): open(q).read()[:1500] for q in inputsA + [pb]}})
         return
     for hs in ('1', '2', '3', 'random'):
         go('hashseed-' + hs, inputsA + [pb], hashseed=hs)
